@@ -396,12 +396,16 @@ func (h *NtfnsHandler) filterTx(dbtx mwdb.ReadTransaction, tx *wire.MsgTx, block
 					// if no output created by previous hash.
 					exist := false
 					if dbtx != nil {
-						exist = h.walletMgr.utxoStore.ExistCreditFromTx(dbtx, &txIn.PreviousOutPoint.Hash)
+						exist, err = h.walletMgr.utxoStore.ExistCreditFromTx(dbtx, &txIn.PreviousOutPoint.Hash)
 					} else {
-						mwdb.View(h.walletMgr.db, func(rtx mwdb.ReadTransaction) error {
-							exist = h.walletMgr.utxoStore.ExistCreditFromTx(rtx, &txIn.PreviousOutPoint.Hash)
-							return nil
+						err = mwdb.View(h.walletMgr.db, func(rtx mwdb.ReadTransaction) (err error) {
+							exist, err = h.walletMgr.utxoStore.ExistCreditFromTx(rtx, &txIn.PreviousOutPoint.Hash)
+							return err
 						})
+					}
+					if err != nil {
+						// a failed read must not be taken for "no credit": the spend would be missed
+						return false, nil, err
 					}
 					if !exist {
 						continue
